@@ -95,7 +95,18 @@ def build_forecast(world, conf, cats, path, ncat_given=True):
     region = world.make_region()
     kw = {}
     if conf['filt']:
-        kw['filters'] = ['magnitude >= 4.0']
+        # three realisations of "the configured attribute filters": a statement, the time-dependent completeness
+        # magnitude after a mainshock (one day before the events, magnitude 8.5: completeness just below 4.0 at their
+        # times, so it removes exactly the events the statement removes), or both
+        real = conf.get('real', 'stmt')
+        if real in ('stmt', 'both'):
+            kw['filters'] = ['magnitude >= 4.0']
+        if real in ('mct', 'both'):
+            import datetime
+            import types
+            kw['apply_mct'] = True
+            kw['event'] = types.SimpleNamespace(magnitude=8.5, time=datetime.datetime(1970, 1, 1, tzinfo=datetime.timezone.utc) +
+                                                datetime.timedelta(milliseconds=1000000000000 - 86400000))
     if conf['spat']:
         kw['filter_spatial'] = True
     if conf['filt'] or conf['spat']:
@@ -292,6 +303,7 @@ def run(chk, replay=None):
         conf = dict(case['conf'])
         cats = [[dict(e, b=e['b']) for e in cat] for cat in case['cats']]
         conf['ncat_given'] = not (conf['src'] == 'list' and ci % 4 == 3)
+        conf['real'] = ['stmt', 'mct', 'both'][(ci // 3) % 3]
         tr = run_history(world, conf, cats, case['hist'], path, rec, seed=ci)
         chk.count()
         if 'aborted' in tr:
@@ -306,6 +318,7 @@ def run(chk, replay=None):
     for t in range(n_rand):
         conf, cats = random_world_forecast(rng)
         conf['ncat_given'] = not (conf['src'] == 'list' and rng.random() < 0.25)
+        conf['real'] = ['stmt', 'mct', 'both'][t % 3]
         hist = [rng.choice(['iter', 'counts', 'ncat', 'rates', 'scounts', 'mcounts', 'eval']) for _ in range(rng.randint(5, 12))]
         tr = run_history(world, conf, cats, hist, path, rec, seed=t)
         chk.count()
